@@ -180,6 +180,25 @@ def lc_gc(rng):
     gc.collect()
     for x in t:
         x.join(30)
+def lc_gc_contended(rng):
+    """the executor is collected while another thread holds its shutdown lock for a moment (what submit, the flag setters, the feeder's
+    error hook and the interpreter-exit hook do): the manager thread must still learn that its executor is gone"""
+    from loky import ProcessPoolExecutor
+    e = ProcessPoolExecutor(2)
+    list(e.map(ident, range(3)))
+    t = [x for x in threading.enumerate() if "ExecutorManager" in x.name]
+    lock = e._shutdown_lock
+    held = threading.Event()
+    def hold():
+        with lock:
+            held.set()
+            time.sleep(0.5)
+    h = threading.Thread(target=hold); h.start(); held.wait(10)
+    del e
+    gc.collect()
+    h.join(30); del lock
+    for x in t:
+        x.join(30)
 def lc_never_started(rng):
     from loky import ProcessPoolExecutor
     e = ProcessPoolExecutor(2)
